@@ -33,8 +33,6 @@ import (
 	"sync"
 	"sync/atomic"
 	"time"
-
-	"verifharness/shot"
 )
 
 type hostile struct {
@@ -42,9 +40,9 @@ type hostile struct {
 	// "" 200 | c403 a refusal with a body | cgarbage not HTTP | cextra 200 followed by stray bytes | cclose nothing
 	connectMode string
 	l           net.Listener
-	Addr   string
-	Hits   atomic.Int64
-	closed chan struct{}
+	Addr        string
+	Hits        atomic.Int64
+	closed      chan struct{}
 }
 
 // listenRetry: the machine runs many checks at once, each opening thousands of short connections; when no port is
@@ -167,7 +165,7 @@ func (t *hostile) handle(c net.Conn) {
 			continue
 		}
 		t.Hits.Add(1)
-		sc, err := shot.ParseScript(req.Header.Get("X-Script"))
+		sc, err := c19ParseScript(req.Header.Get("X-Script"))
 		if err != nil {
 			_, _ = io.WriteString(c, "HTTP/1.1 500 Bad Script\r\nContent-Length: 0\r\nConnection: close\r\n\r\n")
 			return
@@ -309,7 +307,7 @@ type clientConf struct {
 //
 //	r<st>  complete response | rb<st> head, then the body breaks | f no response | u the library decides (not predicted)
 func truthOf(script string, cc clientConf) string {
-	sc, err := shot.ParseScript(script)
+	sc, err := c19ParseScript(script)
 	if err != nil {
 		panic(err)
 	}
